@@ -240,6 +240,8 @@ type GbnResult struct {
 	Conns     [2]*gbn.GoBackNConn
 	Duration  time.Duration
 	CloseTook [2]time.Duration
+	tw        sync.WaitGroup
+	rmu       sync.Mutex
 }
 
 func payloadFor(dir, i, size int) []byte {
@@ -293,9 +295,22 @@ func (sc *GbnScenario) opts() []gbn.Option {
 	return o
 }
 
+// Body drives the API of a connected pair inside the bubble.
+type Body func(sim *Sim, conns [2]*gbn.GoBackNConn, res *GbnResult)
+
 // RunGbn runs one scenario with two real GoBackNConn endpoints in a synctest
 // bubble (virtual time) and returns the event log and API-level results.
 func RunGbn(t *testing.T, sc *GbnScenario, hook func(sim *Sim, res *GbnResult, phase string)) *GbnResult {
+	return RunGbnBody(t, sc, func(sim *Sim, conns [2]*gbn.GoBackNConn, res *GbnResult) {
+		if hook != nil {
+			hook(sim, res, "connected")
+		}
+		defaultTraffic(sc, sim, conns, res, hook)
+	})
+}
+
+// RunGbnBody: handshake, then body, then close of whatever is still open.
+func RunGbnBody(t *testing.T, sc *GbnScenario, body Body) *GbnResult {
 	res := &GbnResult{}
 	func() {
 		defer func() {
@@ -329,82 +344,20 @@ func RunGbn(t *testing.T, sc *GbnScenario, hook func(sim *Sim, res *GbnResult, p
 			wg.Wait()
 			res.HsErr = [2]string{errStr(errs[0]), errStr(errs[1])}
 			res.Conns = conns
-			if errs[0] != nil || errs[1] != nil {
-				for _, c := range conns {
-					if c != nil {
-						c.Close()
-					}
+			if errs[0] == nil && errs[1] == nil {
+				body(sim, conns, res)
+			}
+			for ep := 0; ep < 2; ep++ {
+				if conns[ep] == nil {
+					continue
 				}
-				res.Events = sim.events
-				return
-			}
-			if hook != nil {
-				hook(sim, res, "connected")
-			}
-			var tw sync.WaitGroup
-			var rmu sync.Mutex
-			for ep := 0; ep < 2; ep++ {
-				ep := ep
-				tw.Add(2)
-				go func() { // sender
-					defer tw.Done()
-					for i, size := range sc.Msgs[ep] {
-						p := payloadFor(ep, i, size)
-						sim.log(Event{EP: ep, Kind: "send", Pkt: p, Msg: i})
-						err := conns[ep].Send(p)
-						sim.log(Event{EP: ep, Kind: "send-ret", Msg: i, Err: errStr(err)})
-						if err != nil {
-							rmu.Lock()
-							res.SendErrs[ep] = err.Error()
-							rmu.Unlock()
-							return
-						}
-						rmu.Lock()
-						res.Sent[ep] = append(res.Sent[ep], p)
-						rmu.Unlock()
-						if sc.SendGap[ep] > 0 {
-							time.Sleep(sc.SendGap[ep])
-						}
-					}
-				}()
-				go func() { // receiver
-					defer tw.Done()
-					for {
-						b, err := conns[ep].Recv()
-						sim.log(Event{EP: ep, Kind: "recv-ret", Pkt: b, Err: errStr(err)})
-						if err != nil {
-							rmu.Lock()
-							res.RecvErrs[ep] = err.Error()
-							rmu.Unlock()
-							return
-						}
-						rmu.Lock()
-						res.Recvd[ep] = append(res.Recvd[ep], append([]byte{}, b...))
-						rmu.Unlock()
-					}
-				}()
-			}
-			runFor := sc.RunFor
-			if runFor == 0 {
-				runFor = 60 * time.Second
-			}
-			time.Sleep(runFor)
-			synctest.Wait()
-			if hook != nil {
-				hook(sim, res, "before-close")
-			}
-			res.Duration = sim.now()
-			for ep := 0; ep < 2; ep++ {
-				res.States[ep] = conns[ep].VState()
-			}
-			for ep := 0; ep < 2; ep++ {
 				t0 := time.Now()
 				sim.log(Event{EP: ep, Kind: "close"})
 				conns[ep].Close()
 				sim.log(Event{EP: ep, Kind: "close-ret"})
 				res.CloseTook[ep] = time.Since(t0)
 			}
-			tw.Wait()
+			res.wait()
 			cancel()
 			synctest.Wait()
 			sim.mu.Lock()
@@ -413,6 +366,67 @@ func RunGbn(t *testing.T, sc *GbnScenario, hook func(sim *Sim, res *GbnResult, p
 		})
 	}()
 	return res
+}
+
+func (res *GbnResult) wait() { res.tw.Wait() }
+
+func defaultTraffic(sc *GbnScenario, sim *Sim, conns [2]*gbn.GoBackNConn, res *GbnResult,
+	hook func(sim *Sim, res *GbnResult, phase string)) {
+
+	for ep := 0; ep < 2; ep++ {
+		ep := ep
+		res.tw.Add(2)
+		go func() { // sender
+			defer res.tw.Done()
+			for i, size := range sc.Msgs[ep] {
+				p := payloadFor(ep, i, size)
+				sim.log(Event{EP: ep, Kind: "send", Pkt: p, Msg: i})
+				err := conns[ep].Send(p)
+				sim.log(Event{EP: ep, Kind: "send-ret", Msg: i, Err: errStr(err)})
+				if err != nil {
+					res.rmu.Lock()
+					res.SendErrs[ep] = err.Error()
+					res.rmu.Unlock()
+					return
+				}
+				res.rmu.Lock()
+				res.Sent[ep] = append(res.Sent[ep], p)
+				res.rmu.Unlock()
+				if sc.SendGap[ep] > 0 {
+					time.Sleep(sc.SendGap[ep])
+				}
+			}
+		}()
+		go func() { // receiver
+			defer res.tw.Done()
+			for {
+				b, err := conns[ep].Recv()
+				sim.log(Event{EP: ep, Kind: "recv-ret", Pkt: b, Err: errStr(err)})
+				if err != nil {
+					res.rmu.Lock()
+					res.RecvErrs[ep] = err.Error()
+					res.rmu.Unlock()
+					return
+				}
+				res.rmu.Lock()
+				res.Recvd[ep] = append(res.Recvd[ep], append([]byte{}, b...))
+				res.rmu.Unlock()
+			}
+		}()
+	}
+	runFor := sc.RunFor
+	if runFor == 0 {
+		runFor = 60 * time.Second
+	}
+	time.Sleep(runFor)
+	synctest.Wait()
+	if hook != nil {
+		hook(sim, res, "before-close")
+	}
+	res.Duration = sim.now()
+	for ep := 0; ep < 2; ep++ {
+		res.States[ep] = conns[ep].VState()
+	}
 }
 
 func errStr(err error) string {
